@@ -166,6 +166,8 @@ func histWorker(req N) (resp N) {
 		"opoverflow": "n := bump()\npoke()\nfunc og(k) { return 1 + og(k + 1) }\nog(0)",
 		"deeppanic":  "n := bump()\npoke()\nfunc dp(k) { if k == 0 { return boom() }\n return dp(k - 1) }\ndp(600)",
 		"cancelled":  "n := bump()\npoke()\nfor { spin() }",
+		// a module of the default globals (no importer involved)
+		"impmod": "n := bump()\npoke()\nimport math\nn * 1000 + math.abs(-1)",
 	}
 	// import kinds: the snippet and the library function depend on the module name in use
 	impSnippet := func(j int) string {
@@ -178,7 +180,8 @@ func histWorker(req N) (resp N) {
 		"func do_overflow() { n := bump(); poke(); func g(k) { return g(k + 1) }; return g(0) }\n" +
 		"func do_opoverflow() { n := bump(); poke(); func og(k) { return 1 + og(k + 1) }; return og(0) }\n" +
 		"func do_deeppanic() { n := bump(); poke(); func dp(k) { if k == 0 { return boom() }; return dp(k - 1) }; return dp(600) }\n" +
-		"func do_cancelled() { n := bump(); poke(); for { spin() } }\n"
+		"func do_cancelled() { n := bump(); poke(); for { spin() } }\n" +
+		"func do_impmod() { n := bump(); poke(); import math; return n * 1000 + math.abs(-1) }\n"
 	for j := 1; j <= nMods; j++ {
 		lib += fmt.Sprintf("func do_imp%d() { n := bump(); poke(); import m%d; return n * 1000 + m%d.val - 6 }\n", j, j, j)
 	}
@@ -195,7 +198,7 @@ func histWorker(req N) (resp N) {
 		return N{"k": "nolib", "msg": err.Error()}
 	}
 	fns := map[string]*object.Function{}
-	fnNames := []string{"normal", "error", "panic", "deeppanic", "overflow", "opoverflow", "cancelled"}
+	fnNames := []string{"normal", "error", "panic", "deeppanic", "overflow", "opoverflow", "cancelled", "impmod"}
 	for j := 1; j <= nMods; j++ {
 		fnNames = append(fnNames, fmt.Sprintf("imp%d", j))
 	}
@@ -282,7 +285,7 @@ func histWorker(req N) (resp N) {
 			rerr = fmt.Errorf("Go panic out of the API call: %s", escaped)
 		case rerr == nil:
 			want := (before+1)*1000 + 44850%7
-			if iv, ok := val.(*object.Int); (kind == "normal" || kind == "impok") && ok && iv.Value() == want {
+			if iv, ok := val.(*object.Int); (kind == "normal" || kind == "impok" || kind == "impmod") && ok && iv.Value() == want {
 				obs = "value"
 			} else if val == nil {
 				obs = "cut" // success without the value
